@@ -66,6 +66,9 @@ def plan_c01(tier, seed):
     if tier == "quick":
         runs += grid(["map"], ["u8"], ["U3"], ["hi"], "canonical", ["exact"], threads=8, retain_all=False)
     if tier == "thorough":
+        # determinism double run (compared in guards()): same explorations with 1 and with 5 worker threads
+        runs += [ex("map", "u8", "U2", "hi", "full", ["exact"], threads=5), ex("set", "Ipv6Net", "U2", "lo", "full", ["lookups"], threads=5),
+                 ex("map", "u8", "fork4", "hi", "structural", ["exact"], retain_all=False, threads=1)]
         runs += grid(["map"], ["u8"], ["U3"], ["hi"], "structural", ["exact"], threads=16, retain_all=False)
         runs += grid(["map", "set"], ALL, ["comb5"], ["hi"], "structural", ["exact"], ["lookups"], retain_all=False)
         runs += grid(["map"], ["u8", "Ipv6Net"], ["U3"], ["hi"], "canonical", ["exact"], threads=4)
@@ -327,6 +330,16 @@ PLANS = {
 def guards(prop, tier, plan, runs):
     """conditions under which a silent run must not be believed"""
     problems = []
+    # determinism: the same exploration with a different number of worker threads must visit the same states
+    groups = {}
+    for r in runs:
+        if r.get("engine") == "explore" and r.get("exhaustive") and not r.get("found"):
+            sp = dict(r["spec"])
+            sp.pop("threads", None)
+            groups.setdefault(json.dumps(sp, sort_keys=True), []).append((r["states"], r["transitions"], r.get("digest")))
+    for k, v in groups.items():
+        if len(set(v)) > 1:
+            problems.append(f"non-deterministic exploration: {v} for {k[:200]}")
     for r in runs:
         if r.get("engine") == "explore":
             sp = r["spec"]
